@@ -75,7 +75,7 @@ def _case(rng, kind, sizes, nrounds=3):
 
 
 def generate(tier, rng):
-  reps = {'quick': 4, 'thorough': 30, 'search': 100}[tier]
+  reps = {'quick': 9, 'thorough': 60, 'search': 100}[tier]
   # corners first: a round without examples in the middle of a run, per kind
   for kind in KINDS:
     c = _case(rng, kind, [3, 0, 0, 4])
